@@ -33,9 +33,14 @@ func (d *Driver) EstablishPeriodicSubscription(
 		Period:                period,
 	}
 
+	op, err := NewOperation()
+	if err != nil {
+		return nil, err
+	}
+
 	m := d.buildPayload(establishElem)
 
-	r, err := d.sendRPC(m, &OperationOptions{})
+	r, err := d.sendRPC(m, op)
 	if err != nil {
 		return nil, err
 	}
